@@ -174,6 +174,43 @@ def check_handover_with_register_changes():
                     bad(f"{backend} [{label}]: {k} gives <x> = {v:.4f} on the fed-forward mode, the selected outcome is 0.7")
 
 
+def check_reset_clears_every_outcome():
+    """C09: after reset() the engine behaves like a fresh one - no register of a program that was run keeps a measured value,
+    ALSO for modes that were measured and then deleted; a successor segment that feeds such a value forward cannot be run on
+    its own after the reset (a fresh engine refuses it with ParameterError)"""
+    from strawberryfields.parameters import ParameterError
+    for backend in ("gaussian", "fock"):
+        kw = {"cutoff_dim": 8} if backend == "fock" else {}
+        for when in ("deleted in the successor", "deleted in the successor after another gate"):
+            EVAL[0] += 1
+            p1 = sf.Program(2)
+            with p1.context as q:
+                ops.MeasureHomodyne(0.0, select=0.7) | q[0]
+            p2 = sf.Program(p1)
+            with p2.context as q:
+                ops.Xgate(p2.reg_refs[0].par) | p2.reg_refs[1]
+                if when != "deleted in the successor":
+                    ops.Rgate(0.3) | p2.reg_refs[1]
+                ops.Del | p2.reg_refs[0]
+            eng = sf.Engine(backend, backend_options=kw)
+            try:
+                eng.run([p1, p2])
+            except Exception as e:
+                bad(f"{backend} reset [{when}]: run([p1, p2]) raised {type(e).__name__}: {str(e)[:120]}")
+                continue
+            eng.reset()
+            left = {(name, k): r.val for name, p in (("p1", p1), ("p2", p2)) for k, r in p.reg_refs.items() if r.val is not None}
+            if left:
+                bad(f"{backend} reset [{when}]: reset() left measured values in the registers of programs that were run: {left}")
+            try:
+                eng.run(p2)
+                bad(f"{backend} reset [{when}]: after reset() the successor segment ran on its own using an outcome measured BEFORE the reset (a fresh engine raises ParameterError)")
+            except ParameterError:
+                pass
+            except Exception as e:
+                pass                      # a register mismatch is a refusal as well
+
+
 def check_untouched():
     for backend in ("gaussian", "fock", "bosonic"):
         kw = {"cutoff_dim": 10} if backend == "fock" else {}
@@ -434,8 +471,8 @@ def check_symbol_identity():
 
 if __name__ == "__main__":
     prop = sys.argv[3] if len(sys.argv) > 3 else "both"
-    fns = {"C09": (check_sequencing, check_handover_with_register_changes, check_untouched), "C10": (check_symbolic, check_measured_functions, check_array_parameters, check_symbol_identity)}.get(
-        prop, (check_sequencing, check_handover_with_register_changes, check_untouched, check_symbolic, check_measured_functions, check_array_parameters, check_symbol_identity))
+    fns = {"C09": (check_sequencing, check_handover_with_register_changes, check_reset_clears_every_outcome, check_untouched), "C10": (check_symbolic, check_measured_functions, check_array_parameters, check_symbol_identity)}.get(
+        prop, (check_sequencing, check_handover_with_register_changes, check_reset_clears_every_outcome, check_untouched, check_symbolic, check_measured_functions, check_array_parameters, check_symbol_identity))
     for f in fns:
         try:
             f()
